@@ -41,13 +41,15 @@ Tot(parts) == SumParts(parts, Len(parts))
 RInit == /\ phase = "init" /\ T = Zero /\ demF = <<>> /\ demB = <<>> /\ shutF = 0 /\ shutB = 0
          /\ pf1 = Zero /\ pf3 = Zero /\ ran1 = FALSE /\ used3 = <<>>
 
-(* e = [T, Tcfg, demF, demB, shutF, shutB] *)
+(* e = [T, Tcfg, demF, demB, shutF, shutB, shutFcfg, shutBcfg] *)
 Start(e) ==
   /\ phase = "init"
   /\ Ck("ThresholdInRange", Le(Zero, e.T) /\ Le(e.T, I(100)))
   \* the threshold in force is the configured one: an explicit override, else 10 for the "..._after_10_percent_fed"
   \* shut-off schedules, else 100
   /\ Ck("ThresholdAsConfigured", Eq(e.T, e.Tcfg))
+  \* ... and so are the shut-off months of the documented schedule (0/0, 1/1, 2/1, 3/2, 12/6 or the whole horizon)
+  /\ Ck("ShutoffAsConfigured", e.shutF = e.shutFcfg /\ e.shutB = e.shutBcfg)
   /\ Ck("DemandNonNeg", \A m \in 1..Len(e.demF) : NonNeg(e.demF[m]) /\ NonNeg(e.demB[m]))
   /\ Ck("DemandZeroAfterShutoff", /\ \A m \in 1..Len(e.demF) : m > e.shutF => Eq(e.demF[m], Zero)
                                   /\ \A m \in 1..Len(e.demB) : m > e.shutB => Eq(e.demB[m], Zero))
